@@ -365,7 +365,27 @@ func c14Keywords(c *Ctx) {
 				return
 			}
 			if u, ok := mu.Map.(*ssa.UnOp); !ok || u.X != ssa.Value(kwG) {
-				return
+				// ... or a map made here and then stored into the keyword global
+				mk, isMk := mu.Map.(*ssa.MakeMap)
+				if !isMk {
+					return
+				}
+				if _, isLoopVar := mu.Value.(*ssa.Phi); !isLoopVar {
+					return // a map literal: read below from the package initialiser
+				}
+				stored := false
+				instrs(f, func(_ *ssa.BasicBlock, _ int, x ssa.Instruction) {
+					if st, isSt := x.(*ssa.Store); isSt && st.Addr == ssa.Value(kwG) {
+						for _, rt := range plainOrigins.Roots(st.Val) {
+							if rt.V == ssa.Value(mk) && len(rt.Path) == 0 {
+								stored = true
+							}
+						}
+					}
+				})
+				if !stored {
+					return
+				}
 			}
 			found = true
 			// value: the loop variable; key: tokens[loop variable]
